@@ -44,12 +44,21 @@ def accounts():
                      st.integers(0, 100), st.integers(0, H - 1))
 
 
+# passphrases that look like pieces of the JSON / row syntax the record is rendered in
+JSONISH = st.lists(st.sampled_from(["[", "]", "{", "}", ",", ":", '"', "\\", "  ", " ", "\n", "\t", "a", "[ ", " ]", "m/44'", "null", "\u00e9"]),
+                   min_size=1, max_size=10).map("".join)
+_TOK = st.sampled_from(["a", "b1", "  ", " ", ",", ", ", ":", '"', "\t", "\n", "x  y", "'"])
+JSONISH = st.one_of(JSONISH, st.builds(lambda a, o, inner, c, b: a + o + "".join(inner) + c + b, st.sampled_from(["", "p ", "correct "]),
+                                       st.sampled_from(["[", "[ ", "{", '{"', '["']), st.lists(_TOK, min_size=1, max_size=5),
+                                       st.sampled_from(["]", " ]", "}", '"}', '"]']), st.sampled_from(["", " q", " staple"])))
+
+
 def gen_wallet(tier):
     ent = st.sampled_from([16, 20, 24, 28, 32]).flatmap(lambda n: st.binary(min_size=n, max_size=n))
     return st.fixed_dictionaries({
         "source": st.sampled_from(["mnemonic", "mnemonic", "seed", "xprv", "xprv"]),
         "xver": st.sampled_from([44, 44, 49, 84]),
-        "entropy": ent, "pw": st.one_of(st.just(""), S.unicode_text(8)), "seed": S.seeds(16, 64),
+        "entropy": ent, "pw": st.one_of(st.just(""), S.unicode_text(8), JSONISH), "seed": S.seeds(16, 64),
         "testnet": st.booleans(),
         "calls": st.lists(st.tuples(accounts(), intervals()), min_size=1, max_size=3),
         "same_account": st.booleans(),
@@ -158,7 +167,14 @@ def check_wallet(case, ctx):
     for n, (account, interval) in enumerate(calls):
         interval = [int(interval[0]), int(interval[1])]
         what = "generate(account=%d, interval=%r) call #%d on one %s wallet (testnet=%s)" % (account, interval, n + 1, case["source"], testnet)
-        if n % 2:
+        if case["same_account"] and n >= 1:
+            # paging with ONE list object whose bounds are changed in place between the calls
+            if n == 1:
+                page = list(calls[0][1])
+                call(w.generate, account, page)
+            page[0], page[1] = interval[0], interval[1]
+            st_, data = call(w.generate, account, page)
+        elif n % 2:
             st_, data = call(w.generate, account=account, interval=list(interval))    # as __main__ calls it
         else:
             st_, data = call(w.generate, account, tuple(interval))
